@@ -75,6 +75,14 @@ def scenarios():
     S["format-raises"] = dict(files={"a.md": A, "b.md": B}, argv=["-i", "--nobackup", "a.md", "b.md"], targets={"a.md": (A, fmt(A)), "b.md": (B, fmt(B))},
                               expect_fail=True, patch="format-raises-on-second")
     S["dir-auto"] = dict(files={"a.md": A, "sub/b.md": B}, argv=["--auto", "."], targets={"a.md": (A, fmt(A, True)), "sub/b.md": (B, fmt(B, True))})
+    # appended later: inputs that are links (the file named on the command line is replaced, what it pointed to is not written through)
+    S["i-symlink-input"] = dict(files={"real.md": A}, links={"link.md": "real.md"}, argv=["-i", "--nobackup", "link.md"],
+                                targets={"link.md": ("->real.md", fmt(A))})
+    S["i-symlink-input-backup"] = dict(files={"real.md": A}, links={"link.md": "real.md"}, argv=["-i", "link.md"],
+                                       targets={"link.md": ("->real.md", fmt(A))}, backup=True)
+    S["i-hardlink-input"] = dict(files={"a.md": A}, hardlinks={"hl.md": "a.md"}, argv=["-i", "--nobackup", "a.md"], targets={"a.md": (A, fmt(A))})
+    S["auto-hardlink-input"] = dict(files={"a.md": A, "b.md": B}, hardlinks={"hl.md": "a.md"}, argv=["--auto", "a.md", "b.md"],
+                                    targets={"a.md": (A, fmt(A, True)), "b.md": (B, fmt(B, True))})
     return S
 
 
@@ -88,6 +96,8 @@ def make_setup(sc):
             _write(d, rel, content)
         for rel, target in sc.get("links", {}).items():
             os.symlink(target, os.path.join(d, rel))
+        for rel, target in sc.get("hardlinks", {}).items():
+            os.link(os.path.join(d, target), os.path.join(d, rel))
     return setup
 
 
@@ -136,6 +146,9 @@ def judge(sc, code, fired, snap, crashed):
         want = content.decode("utf8", "backslashreplace") if isinstance(content, bytes) else content
         if snap.get(rel) != want:
             viol.append(("other-file-modified", {"path": rel, "content": snap.get(rel), "expected": want}))
+    for rel, target in sc.get("hardlinks", {}).items():
+        if snap.get(rel) != sc["files"][target]:
+            viol.append(("other-file-modified", {"path": rel, "content": snap.get(rel), "expected": sc["files"][target], "note": "second hard link"}))
     if not crashed:
         done = all(snap.get(p) == new for p, (old, new) in sc["targets"].items())
         if code == 0 and not done:
